@@ -23,11 +23,27 @@ rule = ("scripts = 'a handles n', a set-up building typed buffers whose element 
         "pool (set/insert/cut/slice/reserve/detach/reduce/bset/clone/drop at front, middle, end, past-the-end) on "
         "either of 2 handles x 6 set-ups (shared and unshared) x 8 constructor-failure schedules, all pairs of a reduced "
         "pool x 4 set-ups x 4 schedules, all triples of a small pool x 2 set-ups x 2 schedules; stream 2: random "
-        "histories of length 25 over 3 handles. Non-trivial = the code's log contains a copy construction or a refused "
+        "histories of length 25 over 3 handles; stream 3: destructor-only element type (f8, as reference_array<T>) in "
+        "BufferNoCopy buffers of 1..30 elements (past the first allocation or not), shared or not, every op of a pool on "
+        "either handle, pairs for 9 and 12 elements — BufferNoCopy has to survive every re-allocation and such content is "
+        "never duplicated while shared. Third part (harness/drv_refs.c, 'r' lines): the library's own element traits — "
+        "arrays of arrays (mpt_array_traits: wrap, push, take an own/other child as new content, set from source "
+        "elements, cut, detach, clone, drop) and arrays of metatype references (mpt_meta_reference_traits with sharable "
+        "and single-owner harness instances) plus leaf token arrays: 8 set-ups x 37 ops, all pairs (quick: every third "
+        "second op), random histories over 4 handles; after every op the harness checks that buffer and instance "
+        "reference counts equal the references that exist, every live token is stored once, nothing is released twice, "
+        "nothing is alive or allocated at the end. Fourth part (harness/drvxx_refs.cpp): reference_array<Obj> insert/set/"
+        "clear/copy/drop with an object type larger than a pointer. Non-trivial = the code's log contains a copy construction or a refused "
         "constructor and a destruction before the final release, counted per distinct script")
 assumptions = [
-    "element traits are those of the harness (4 and 8 byte elements holding a token; init/fini as in harness/drv_array.c); "
-    "the library's own traits (array, metatype reference, config item, command, identifier) are not driven",
+    "byte-level part: element traits are those of the harness (4 and 8 byte elements holding a token; init/fini as in "
+    "harness/drv_array.c; f8 = destructor only); reference part: the library's array traits and metatype-reference "
+    "traits with harness metatype instances; the traits of config items, commands and identifiers are not driven here "
+    "(config items: C10, commands: C11, identifiers: C16)",
+    "no zero-filling operation is applied to buffers of the destructor-only type f8 (a zeroed element of such a type "
+    "is an empty reference, which the token bookkeeping does not know)",
+    "arrays of arrays are built without cycles (a buffer that contains a reference to itself is never released)",
+    "source elements handed to mpt_array_set do not live in the target array's own buffer",
     "constructions performed by the harness itself (source elements of a set, elements placed into the region returned "
     "by mpt_array_insert) never fail; only constructor calls made by the library consult the failure schedule",
     "malloc never fails; sizes far below SIZE_MAX",
@@ -35,7 +51,11 @@ assumptions = [
 trusted = ["hand-written model MptModel/Impl/Heap.lean (callbacks = harness traits) tied to mptcore/array/*.c by harness/drv_elem.c",
            "C++ part: MptModel/Impl/HeapXX.lean tied to typed_array<Elem>/unique_array<Elem>, buffer::trim/skip, content<T>::set_length "
            "by harness/drvxx_array.cpp (Elem logs tokens in its constructors/destructor; C++ constructors cannot be refused)",
-           "legality of the code's callback log is judged by the harness itself (live-token table in drv_array.c)"]
+           "reference part: hand-written model MptModel/Impl/Refs.lean (buffers as reference count + element list; sizes and "
+           "addresses abstracted) tied to array_clone.c, array_traits.c, meta_reference_traits.c, the detach/insert/cut/set "
+           "paths and reference_array<T> by harness/drv_refs.c and harness/drvxx_refs.cpp",
+           "legality of the code's callback log and of the reference counts is judged by the harness itself (live-token table, "
+           "instance table, reachability walk in drv_array.c / drv_refs.c / drvxx_refs.cpp)"]
 
 
 def corpus(chk):
@@ -226,7 +246,8 @@ class _Refs:
 
     @staticmethod
     def corpus(chk):
-        return [(n, s) for n, s in gen.corpus(id) if s and s[0].startswith("r ")]
+        return [(n, s) for n, s in gen.corpus(id) if s and s[0].startswith("r ")
+                and not any(" rins " in x or " rset " in x for x in s)]
 
     @staticmethod
     def scripts(tier, seed, scale=1):
@@ -325,7 +346,71 @@ def refs_scripts(tier, seed, scale=1):
     return out
 
 
-extra_parts = [_XX, _Refs]
+class _RefsXX:
+    """fourth part: mpt::reference_array<T> (references to counted objects; element type with destructor but without
+    copy constructor, BufferNoCopy buffers); model MptModel/Impl/Refs.lean (kind uref)"""
+    id = "C05"
+    area = "elem"
+    driver = "drvxx_refs"
+    cxx = True
+    fixed_lines = 1
+    link_extra = ["-fno-sanitize=vptr"]
+
+    @staticmethod
+    def corpus(chk):
+        return [(n, s) for n, s in gen.corpus(id) if s and s[0].startswith("r ") and any(" rins " in x or " rset " in x for x in s)]
+
+    @staticmethod
+    def scripts(tier, seed, scale=1):
+        out = []
+        setups = {"empty": [], "three": ["r rins h0 0 1", "r rins h0 1 1", "r rins h0 2 0"],
+                  "three-shared": ["r rins h0 0 1", "r rins h0 1 1", "r rins h0 2 0", "r rclone h1 h0"],
+                  "gap": ["r rins h0 2 1"],
+                  "grown-shared": ["r rins h0 %d 1" % k for k in range(10)] + ["r rclone h1 h0"]}
+        def ops(h, o):
+            return ["r rins %s 0 1" % h, "r rins %s 1 0" % h, "r rins %s -1 1" % h, "r rins %s 5 1" % h, "r rins %s -9 1" % h,
+                    "r rset %s 0 1" % h, "r rset %s -1 0" % h, "r rset %s 7 1" % h, "r rclear %s" % h, "r rdrop %s" % h,
+                    "r rclone %s %s" % (h, o)]
+        pool = ops("h0", "h1") + ops("h1", "h0")
+        for sn, su in setups.items():
+            for a in pool:
+                out.append(("ru1:%s:%s" % (sn, a), ["r handles 2"] + su + [a, "r end"]))
+                for b in pool:
+                    out.append(("ru2:%s:%s;%s" % (sn, a, b), ["r handles 2"] + su + [a, b, "r end"]))
+        r = gen.rng(id, tier, seed, "refsxx")
+        hs = ["h0", "h1", "h2"]
+        for k in range((100 if tier == "quick" else 2000) * scale):
+            lines = ["r handles 3"]
+            for _ in range(r.randrange(5, 25)):
+                h = r.choice(hs)
+                op = r.choice(["rins", "rins", "rins", "rset", "rclear", "rdrop", "rclone", "rclone"])
+                if op in ("rins", "rset"):
+                    lines.append("r %s %s %d %d" % (op, h, r.choice([0, 0, 1, 2, 3, 9, -1, -2, -20]), r.choice([0, 1])))
+                elif op == "rclone":
+                    lines.append("r rclone %s %s" % (h, r.choice([x for x in hs if x != h])))
+                else:
+                    lines.append("r %s %s" % (op, h))
+            lines.append("r end")
+            out.append(("rur:%d" % k, lines))
+        return out
+
+    @staticmethod
+    def nontrivial(script, c_lines):
+        # an object was released before the end while another stayed referenced
+        rel = False
+        for ln in c_lines[:-1]:
+            m = _EV.search(ln)
+            if m and m.group(1) != "-" and any(e[0] in "ud" for e in m.group(1).split(",")):
+                rel = True
+        return rel
+
+    @staticmethod
+    def finding_key(script, res):
+        op = (res.get("op") or "").split()
+        return "refsxx:%s:%s" % (res["kind"], op[1] if len(op) > 1 else "?")
+
+
+extra_parts = [_XX, _Refs, _RefsXX]
 
 _EV = re.compile(r" ev=(\S+)")
 
